@@ -396,6 +396,34 @@ def facts_packets():
             r.append(ct[nm.split(".", 1)[1]])
         return sorted(r)
     out.append("Definition packets_string_param_types : list N := " + nlist(codes(sets[0])) + ".")
+    # Capabilities: IntFlag with auto() -> bit i for the i-th member
+    capcls = find_class(ty, "Capabilities")
+    members = [n.targets[0].id for n in capcls.body if isinstance(n, ast.Assign) and isinstance(n.value, ast.Call) and call_name(n.value) == "auto"]
+    bits = {m: i for i, m in enumerate(members)}
+    need = ["CLIENT_PLUGIN_AUTH_LENENC_CLIENT_DATA", "CLIENT_CONNECT_WITH_DB", "CLIENT_PLUGIN_AUTH", "CLIENT_CONNECT_ATTRS",
+            "CLIENT_ZSTD_COMPRESSION_ALGORITHM", "CLIENT_SECURE_CONNECTION", "CLIENT_PROTOCOL_41", "CLIENT_QUERY_ATTRIBUTES"]
+    for m in need:
+        if m not in bits:
+            raise Shape("Capabilities." + m + " not found")
+    out.append("Definition types_caps_bits_used : list N := " + nlist([bits[m] for m in need]) + ".")
+    out.append(f"Definition types_cap_deprecate_eof_bit : N := {bits['CLIENT_DEPRECATE_EOF']}.")
+    out.append(f"Definition types_cap_ssl_bit : N := {bits['CLIENT_SSL']}.")
+    out.append(f"Definition types_cap_optional_metadata_bit : N := {bits['CLIENT_OPTIONAL_RESULTSET_METADATA']}.")
+    cst = parse("constants.py")
+    dsc = [n for n in cst.body if isinstance(n, ast.Assign) and ast.unparse(n.targets[0]) == "DEFAULT_SERVER_CAPABILITIES"]
+    if len(dsc) != 1:
+        raise Shape("DEFAULT_SERVER_CAPABILITIES not found")
+    word = 0
+    for n in ast.walk(dsc[0].value):
+        if isinstance(n, ast.Attribute) and isinstance(n.value, ast.Name) and n.value.id == "Capabilities":
+            word |= 1 << bits[n.attr]
+    out.append(f"Definition constants_default_server_caps : N := {word}.")
+    # collations known to the Collation enum
+    ch = parse("charset.py")
+    coll = class_consts(find_class(ch, "Collation"))
+    cs = class_consts(find_class(ch, "CharacterSet"))
+    out.append("Definition charset_collation_ids : list N := " + nlist(sorted(coll.values())) + ".")
+    out.append("Definition charset_charset_ids : list N := " + nlist(sorted(cs.values())) + ".")
     return out
 
 
